@@ -70,6 +70,15 @@ ASSIGNMENTS_QUICK = [
     "a() = B(i,j) * C(i,j)",
     "a() = B(i,j) * c(j)",
     "A(i,j) = B(i,k) * C(k,j) + D(i,j)",
+    "A(i,j) = B(i,k) * B(j,k)",
+    "y(i) = a(i) + c(j) + (b(i) + d(k))",
+    "s() = a(i) + 1 + (c(j) + 2)",
+    "y(i) = a(i) + C(j,i) + (b(i) + D(k,i))",
+    "y(i) = (a(i) + c(j)) + (b(i) * d(k))",
+    "y(i) = (a(i) - c(j)) - (b(i) - d(k))",
+    "y(i) = A(i,j) * x(j) * 2 + b(i)",
+    "y(i) = b(i) - A(i,j) * x(j) * 2",
+    "y(i) = a(i) * c(j) + b(i)",
 ]
 
 ASSIGNMENTS_ORDER3 = [
@@ -82,6 +91,8 @@ ASSIGNMENTS_ORDER3 = [
     "A(i,j,k) = B(i,j) * c(k)",
     "a() = B(i,j,k)",
     "y(i) = A(i,j,k) * B(k,j)",
+    "A(i,j,k) = B(i,k) + B(j,k)",
+    "A(i,j,k) = B(i,j) * C(j,k)",
     "B(i,k,j) = A(i,j,k)",
 ]
 
